@@ -18,6 +18,18 @@ CHECKS["C01"] = dict(
   text="Every generated layout (T1T static/dynamic, T2T incl. multi-sector, T3T, library-emulated T3T, T4T 4A/4B mapping 1.0-3.0) is written and read back through a fresh activation; reported capacity is compared with an independently computed true capacity and the raw memory image is decoded by an independent reader. Held on everything explored; the lengths leg is exhaustive for its layouts.",
   note=TRUST + "Tag simulators vlib/simtags.py, vlib/isodep_card.py and the layout model vlib/ref_tlv.py are part of the trusted base. Known finding C01-t4t-v3-64k (mapping 3.0 files > 64 KiB) is excluded by signature and printed as KNOWN-FINDING.")
 
+CHECKS["C02"] = dict(
+  category="fault_enumeration",
+  technique="property-based testing + crash-point enumeration: generated (layout, old, new) triples; memory snapshot after every state-changing command = every power-cut point; fresh library reader and independent reference reader classify each",
+  text="For each generated write the set of cut points k=0..n is enumerated (exhaustively in the thorough tier; quick tier: all when n<=40, else both ends + samples) and a fresh activation plus an independent reader must see old, empty/unreadable or new - never a mixture. Snapshot-equals-real-cut is cross-checked twice per case.",
+  note=TRUST + "Each tag command is atomic (the property's 'after any command'). Known findings C02-ext-length-t1t/t2t (3-byte length committed across write units) are excluded by a narrow signature (cut inside the final length update only).")
+
+CHECKS["C03"] = dict(
+  category="exploration",
+  technique="property-based testing (Hypothesis): generated layouts with reserved ranges before/inside/after/beyond the message, byte-wise diff of the whole physical image and per-command address check against an independent allowed-set model",
+  text="Every write/format on generated layouts is followed by a diff of the complete physical memory (one-way lock/OTP semantics make damage visible) against the independently computed NDEF area, and every executed write command must address a unit intersecting it. Held on everything explored.",
+  note=TRUST + "Allowed sets for format() on Topaz/Type 3 come from the docstrings. FeliCa Lite/NTAG personalities not simulated in this check.")
+
 PENDING_REASON = "not claimed yet: its generated-input check (DESIGN.md section 3) is still under construction in this session; nothing is asserted about it"
 
 def main():
